@@ -126,6 +126,11 @@ def main():
             want = [1.0, 0.0] if norm else [float(n), 0.0]
             if one != want: fail(what='vectorise_one on a long homopolymer', seq="'A' * %d" % n, k=1, norm=norm, expected=want, actual=one)
         del big
+    # an empty batch gives an empty list, a batch of empty strings one empty result each
+    cases += 3
+    if kt.CgrComputer(4).vectorise_batch([]) != []: fail(what='CgrComputer.vectorise_batch([])', actual=kt.CgrComputer(4).vectorise_batch([]))
+    if kt.CgrComputer(4).vectorise_batch(['', '']) != [[], []]: fail(what="CgrComputer.vectorise_batch(['', ''])", actual=kt.CgrComputer(4).vectorise_batch(['', '']))
+    if comps[2].vectorise_batch([], True) != []: fail(what='OligoComputer.vectorise_batch([])', actual=comps[2].vectorise_batch([], True))
     # an iterator object is consumed exactly once, however it is driven: next() then list(), list() twice, iter() in between
     for s in ('ACGTTGCAAGTCCATG', 'ACGNNACGTACGTTGAC', 'AC'):
         b = s.encode()
